@@ -16,9 +16,10 @@ import wx
 from wx import Cmd, Desc, Sandbox, HarnessError, is_virtual
 import families as F
 
-KINDS_QUICK = ["exit1", "exit1-after", "kill", "need", "unwritable"]
-KINDS_THOROUGH = KINDS_QUICK + ["kill-after"]
-CTL = {"exit1": "fail-before", "exit1-after": "fail-after", "kill": "kill", "kill-after": "kill-after"}
+KINDS_QUICK = ["exit1", "exit1-after", "kill", "need", "unwritable", "term-after"]
+KINDS_THOROUGH = KINDS_QUICK + ["kill-after", "abrt", "segv-after"]
+CTL = {"exit1": "fail-before", "exit1-after": "fail-after", "kill": "kill", "kill-after": "kill-after",
+       "term-after": "sig-after 15", "abrt": "sig 6", "segv-after": "sig-after 11"}
 
 
 def c10_families():
@@ -364,7 +365,7 @@ def run(args, res):
         "was actually reached" % (len(fams), ", ".join(kinds), "" if args.tier == "thorough" else " (quick: only for k=1)",
                                   "{0,1,2}" if args.tier == "thorough" else "{0,1}"))
     res.assumptions.append("`exit1` fails before writing, `exit1-after` after writing all outputs, `kill`/`kill-after` raise SIGKILL "
-                           "in the command itself, `need` refuses because an undeclared file is missing (repair creates it), "
+                           "in the command itself, `term-after`/`segv-after`/`abrt` make it die of SIGTERM/SIGSEGV (after writing) or SIGABRT (before), `need` refuses because an undeclared file is missing (repair creates it), "
                            "`unwritable` obstructs the command's last file output with a directory (or a file for a directory output)")
     res.assumptions.append("the basic frontend cancels the build at the first command failure, so in a failing build only the commands "
                            "actually started (exec.log) are judged; only shell commands are observable in exec.log")
